@@ -37,6 +37,8 @@ Main results
   comments and the `.` of `x.0.0` (with `normalize_doc_attributes` also the tokens of a
   `#[doc = ".."]` attribute); it is the token-wise map `canonTok` after `resplit`, which keeps the
   concatenated text.
+* `norm_hard_preserved_fis`, `equiv_sound_fis`  the same for `use_field_init_shorthand = true`, up to
+  `squash` (an identifier that repeats the hard token before it is dropped: `a: a` ~ `a`).
 * `tokEquiv_refl`, `tokEquiv_symm`, `tokEquiv_trans`: the validator is an equivalence relation.
 * `norm_idem_counterexample`: `norm` is NOT idempotent on arbitrary token lists (`< , >`); nothing
   above needs idempotence, the validator being the kernel of `norm`.
@@ -183,6 +185,20 @@ theorem norm_weak_preserved (cfg : Cfg) (ts : List Tok) :
     outside (softX cfg) (norm cfg ts) = outside (softX cfg) (pre cfg ts) :=
   post_outside_softX cfg (pre cfg ts)
 
+/-- With `use_field_init_shorthand` on (and for every value of it): the hard tokens of the normal form
+are the rendering of the certificate up to `squash`, which drops an identifier that repeats the
+hard token directly before it — exactly the trace `a: a` ~ `a` leaves on the hard tokens. -/
+theorem norm_hard_preserved_fis (cfg : Cfg) (hw : cfg.wild = false) (ts : List Tok) :
+    squash noTok (hards cfg (norm cfg ts)) = squash noTok (render (hardSeq cfg ts)) := by
+  unfold norm pre hardSeq
+  rw [post_hards_squash cfg hw, regions_eq_render, hards_render]
+
+/-- Soundness with `use_field_init_shorthand` on: equal certificates up to `squash`. -/
+theorem equiv_sound_fis (cfg : Cfg) (hw : cfg.wild = false) (a b : List Tok) (h : equiv cfg a b = true) :
+    squash noTok (render (hardSeq cfg a)) = squash noTok (render (hardSeq cfg b)) := by
+  have hn := (equiv_iff_norm_eq cfg a b).1 h
+  rw [← norm_hard_preserved_fis cfg hw a, ← norm_hard_preserved_fis cfg hw b, hn]
+
 /-- SOUNDNESS.  If the validator accepts `(a, b)` — two lists as the lexer sends them, i.e. without
 synthetic `R…` classes — then `a` and `b` have the same certificate. -/
 theorem equiv_sound (cfg : Cfg) (hf : cfg.fis = false) (hw : cfg.wild = false) (a b : List Tok)
@@ -289,6 +305,13 @@ theorem equiv_sound_fis_wild_counterexample :
     (equiv { wild := true } (lexEx (chars% "S ( a , _ , _ )")) (lexEx (chars% "S ( a , . . )")) = true ∧
      hardSeq { wild := true } (lexEx (chars% "S ( a , _ , _ )")) ≠ hardSeq { wild := true } (lexEx (chars% "S ( a , . . )"))) := by
   decide +kernel
+
+/-- `equiv_sound_fis` is not vacuous and still rejects: the shorthand is accepted, a changed field
+value is not -/
+example : equiv { fis := true } (lexEx (chars% "S { a : a , b : c }")) (lexEx (chars% "S { a , b : c }")) = true ∧
+    equiv { fis := true } (lexEx (chars% "S { a : a , b : c }")) (lexEx (chars% "S { a , b }")) = false ∧
+    squash noTok (render (hardSeq { fis := true } (lexEx (chars% "S { a : a , b : c }")))) =
+      squash noTok (render (hardSeq { fis := true } (lexEx (chars% "S { a , b : c }")))) := by decide +kernel
 
 /-- `norm` is not idempotent on arbitrary token lists: rule 1 (`,` before `>`) runs after rule 3
 (`<>`), so `< , >` normalises to `< >`, which normalises to nothing.  Soundness does not need
